@@ -182,7 +182,7 @@ def view(url, strip_fragment):
 
 
 # ---------------------------------------------------------------------------------------
-# FX-C01-NFKCUSERINFO: a decoded userinfo character whose NFKC form holds a url delimiter
+# FX-C01-194b1c7: a decoded userinfo character whose NFKC form holds a url delimiter
 # ---------------------------------------------------------------------------------------
 _nfkc_memo = {}
 
